@@ -58,11 +58,13 @@ func VC16() {
 		vrt.Assert(string(o1) == string(o2) && len(o1) == p.n, "c16.noorg")
 		return
 	}
-	org := vrt.IntRange("org", 0, 0xfff0)
-	k := vrt.IntRange("k", 1, 512)
+	// origins up to 128 K: labels cross the 64 K line inside the programs
+	// (absolute values are compared at their field width)
+	org := vrt.IntRange("org", 0, 0x1fff0)
+	k := vrt.IntRange("k", 1, 2048)
 	d := k * 64
 	org2 := org + d
-	vrt.Assume(org2 <= 0xfff0)
+	vrt.Assume(org2 <= 0x1fff0)
 	var s1, s2 subs
 	src1 := "ORG " + lit(org, &s1) + "\n" + body
 	src2 := "ORG " + lit(org2, &s2) + "\n" + body
@@ -75,12 +77,13 @@ func VC16() {
 	vrt.NoteBytes("a", o1)
 	vrt.NoteBytes("b", o2)
 	_, _ = d1, d2 // truncation warnings at origins near 64K are not failures
-	if oc1 != "ok" || len(o1) != p.n {
+	if oc1 != "ok" {
 		vrt.Reach("c16.rejected")
 		return
 	}
 	vrt.Reach("c16.accepted")
 	var acc diffAcc
+	acc.flag(len(o1) != p.n) // the length does not depend on the origin
 	acc.flag(oc2 != "ok")
 	acc.flag(len(o2) != p.n)
 	if len(o1) == p.n && len(o2) == p.n {
